@@ -185,6 +185,7 @@ def canonical_start(F, R):
       with a non-zero entry; its row may be dropped as redundant only when no such column exists
       (a sign test instead of a non-zero test drops genuine constraints);
     - phase-1 verdict: infeasible iff the phase-1 optimum differs from 0 (float_ne)."""
+    index_spaces(F, R)
     SLM = "transformers::standard_linear_model::StandardLinearModel::"
     f = F.fn(SLM + "into_tableau")
     if f is None:
@@ -245,3 +246,62 @@ def canonical_start(F, R):
     # artificial columns: unit entry at i + number_of_variables, cost 1, basis entry, value -= b[i]
     t = sexp(g["body"])
     R.ob("T-CANON", "phase1:artificial-columns", "constraint[(i + number_of_variables)] = 1.0" in t and "c[(number_of_variables + i)] = 1.0" in t and "basis[i] = (number_of_variables + i)" in t and "value -= b[i]" in t and "c[j] -= *coefficient" in t.replace("c[j] -= coefficient", "c[j] -= *coefficient"), F.loc(g), "artificial i gets a unit entry in row i, cost 1 and is basic in row i; the phase-1 costs and value are reduced by every row")
+
+
+def index_spaces(F, R):
+    """T-CANON (index spaces): vectors that are filled together by sibling `push` calls of one loop body share one row
+    numbering; a loop that enumerates one of them may only use its counter to index members of the same group, and a
+    tableau is assembled from members of one group only.  (After redundant rows are dropped, `new_a/new_b/new_basis` are
+    numbered differently from `a/b/basis`: pricing the costs with the old matrices reads the wrong rows.)"""
+    SLM = "transformers::standard_linear_model::StandardLinearModel::"
+    n = 0
+    for f in F.fn_list:
+        if "body" not in f or not f["path"].startswith(SLM):
+            continue
+        groups = []
+        for blk in walk(f["body"]):
+            if blk.get("k") != "Block":
+                continue
+            pushed = []
+            for st in blk.get("stmts", []):
+                e = strip(st.get("e") or {}) if st.get("k") in ("Semi", "Expr") else {}
+                if e.get("k") == "MCall" and e.get("name") == "push" and strip(e["recv"]).get("k") == "Path":
+                    pushed.append(strip(e["recv"])["name"])
+            if len(pushed) >= 2:
+                groups.append(set(pushed))
+        if not groups:
+            continue
+        for lp in walk(f["body"]):
+            if lp.get("k") != "For":
+                continue
+            it_ = sexp(lp["iter"])
+            m = re.match(r"^&?([a-z_]+)\.iter\(\)\.enumerate\(\)$", it_)
+            if not m:
+                continue
+            g = next((gr for gr in groups if m.group(1) in gr), None)
+            if g is None:
+                continue
+            pats = [p_ for p_ in walk(lp["pat"]) if p_.get("k") == "PBind"]
+            if not pats:
+                continue
+            counter = pats[0]["name"]
+            n += 1
+            wrong = []
+            for ix in walk(lp["body"]):
+                if ix.get("k") == "Index" and sexp(strip(ix["i"])) == counter:
+                    base = strip(ix["a"])
+                    while base.get("k") == "Index":
+                        base = strip(base["a"])
+                    if base.get("k") == "Path" and base.get("name") not in g:
+                        wrong.append("%s[%s]" % (base.get("name"), counter))
+            R.fn(f["path"])
+            R.ob("T-CANON", "%s:index-space:%s" % (f["path"].rsplit("::", 1)[-1], m.group(1)), not wrong, F.loc(f, lp), "the counter of the loop over `%s` (rows numbered as in %s) indexes %s" % (m.group(1), sorted(g), wrong or "only vectors of that group"))
+        # the tableau is assembled from one group
+        for c in walk(f["body"]):
+            if c.get("k") == "Call" and norm(c.get("callee") or "").endswith("Tableau::new") and len(c["args"]) >= 4:
+                names = [strip(a).get("name") for a in c["args"][1:4] if strip(a).get("k") == "Path"]
+                gs = [next((i for i, gr in enumerate(groups) if nm in gr), None) for nm in names]
+                if any(x is not None for x in gs):
+                    n += 1
+                    R.ob("T-CANON", "%s:tableau-from-one-group" % f["path"].rsplit("::", 1)[-1], len(set(gs)) == 1 and None not in gs, F.loc(f, c), "Tableau::new takes the matrix, right-hand side and basis %s, which must come from one row numbering %s" % (names, [sorted(g) for g in groups]))
+    R.ob("T-CANON", "index-space:sites", n >= 2, "", "expected at least 2 index-space obligations in the canonical start, found %d" % n)
